@@ -126,4 +126,117 @@ Qed.
 Lemma fast_built : exists fn, fast_of_net Rnum n = Ok fn /\ translated n fn (idxf n).
 Proof. exact (fast_of_net_translated n (fw_ok _ FW) (fw_outs_nodup _ FW) (fw_outs _ FW)). Qed.
 
+
+(* LoadSensors of the fast solver on a fresh instance *)
+Lemma fold_set_sig_proj (b : nat) (g : nat -> R) is : forall s : fstate R,
+  let s' := fold_left (fun s i => set_sig s (b + i) (g i)) is s in
+  fs_sig s' = fold_left (fun l k => upd k (g (k - b)) l) (map (fun i => b + i) is) (fs_sig s) /\
+  fs_bp s' = fs_bp s /\ fs_done s' = fs_done s /\ fs_inact s' = fs_inact s.
+Proof.
+  induction is as [|i rest IH]; intros s; simpl; [auto|].
+  destruct (IH (set_sig s (b + i) (g i))) as (E1 & E2 & E3 & E4).
+  split; [|auto]. rewrite E1. simpl. replace (b + i - b) with i by lia. reflexivity.
+Qed.
+
+Lemma map_add_seq b m : forall a, map (fun i => b + i) (seq a m) = seq (b + a) m.
+Proof.
+  induction m as [|m IH]; intros a; simpl; [reflexivity|]. f_equal. rewrite IH. f_equal. lia.
+Qed.
+
+Lemma fast_load_base fn x :
+  translated n fn (idxf n) -> sensor_vals x v -> length x = length (positions_with n is_input) ->
+  exists s1, fast_load Rnum fn x (fast_init Rnum fn) = (s1, Ok true) /\
+             fbase n v fn (idxf n) s1 /\ length (fs_done s1) = N /\ length (fs_inact s1) = N.
+Proof.
+  intros TR [VB VI] Hx. unfold fast_load.
+  rewrite Hx, <- (tr_in _ _ _ TR), Nat.eqb_refl.
+  eexists. split; [reflexivity|].
+  destruct (fold_set_sig_proj (f_bias fn) (fun i => getF Rnum x i) (seq 0 (f_in fn)) (fast_init Rnum fn))
+    as (E1 & E2 & E3 & E4).
+  set (s1 := fold_left (fun s i => set_sig s (f_bias fn + i) (getF Rnum x i)) (seq 0 (f_in fn)) (fast_init Rnum fn)) in *.
+  rewrite map_add_seq, Nat.add_0_r in E1.
+  pose proof (tr_total _ _ _ TR) as HT. pose proof (tr_sensor_le _ _ _ TR) as HS. unfold f_sensor in HS.
+  assert (Linit : length (fs_sig (fast_init Rnum fn)) = N).
+  { unfold fast_init. simpl. rewrite app_length, !repeat_length. lia. }
+  split; [|split].
+  - split; [|split].
+    + split.
+      * rewrite E1, fold_upd_length. exact Linit.
+      * rewrite E2. unfold fast_init. simpl. rewrite repeat_length. exact HT.
+    + intros i _. unfold bp. rewrite E2. unfold fast_init. simpl. apply nth_repeat.
+    + intros p Hp Hs. unfold sg. rewrite E1.
+      destruct (is_bias (role_at n p)) eqn:Eb.
+      * pose proof (proj2 (tr_bias _ _ _ TR p Hp) Eb) as Hi.
+        rewrite fold_upd_below by (intros i Hi' E; apply in_seq in Hi'; lia).
+        unfold fast_init. simpl. rewrite app_nth1 by (rewrite repeat_length; exact Hi).
+        rewrite nth_repeat_lt by exact Hi. symmetry. apply VB; assumption.
+      * assert (Hin : In p (positions_with n is_input)).
+        { apply in_positions_with. split; [exact Hp|]. unfold sensorb in Hs.
+          destruct (role_at n p); simpl in *; congruence. }
+        destruct (pos_of_in p _ Hin) as [Hlt Hnth].
+        set (i := pos_of p (positions_with n is_input)) in *.
+        assert (Hidx : idxf n p = f_bias fn + i).
+        { rewrite <- Hnth at 1. apply (tr_ins _ _ _ TR). rewrite (tr_in _ _ _ TR). exact Hlt. }
+        rewrite Hidx.
+        rewrite (fold_upd_at (fun k => getF Rnum x (k - f_bias fn)) 0%R (f_bias fn + i)).
+        -- replace (f_bias fn + i - f_bias fn) with i by lia. rewrite <- Hnth. symmetry. apply VI. exact Hlt.
+        -- apply seq_NoDup.
+        -- apply in_seq. rewrite (tr_in _ _ _ TR). lia.
+        -- rewrite Linit. rewrite <- Hidx. apply (tr_idx_lt _ _ _ TR). exact Hp.
+  - rewrite E3. unfold fast_init. simpl. rewrite repeat_length. exact HT.
+  - rewrite E4. unfold fast_init. simpl. rewrite repeat_length. exact HT.
+Qed.
+
+Theorem fast_forward_topo (x : list R) (k : Z) :
+  sensor_vals x v -> length x = length (positions_with n is_input) -> (Z.of_nat (depth dp) <= k)%Z ->
+  exists fn s1 s2 r, fast_of_net Rnum n = Ok fn /\
+    fast_load Rnum fn x (fast_init Rnum fn) = (s1, Ok true) /\
+    fast_forward Rnum (ract known f) fn k s1 = (s2, Ok r) /\
+    fast_outputs Rnum fn s2 = map v (outputs n).
+Proof.
+  intros SV Hx Hk. destruct fast_built as (fn & Efn & TR).
+  destruct (fast_load_base fn x TR SV Hx) as (s1 & E1 & B & _ & _).
+  destruct (fast_forward_from_base n known f dp v fn (idxf n) ffnet_of_feedforward SOL TR (proj1 SV) k s1 B)
+    as (s2 & r & E2 & O2).
+  { intros o Ho. pose proof (depth_output o Ho). lia. }
+  exists fn, s1, s2, r. auto.
+Qed.
+
+Theorem fast_recursive_topo (x : list R) :
+  sensor_vals x v -> length x = length (positions_with n is_input) ->
+  exists fn s1 s2 r, fast_of_net Rnum n = Ok fn /\
+    fast_load Rnum fn x (fast_init Rnum fn) = (s1, Ok true) /\
+    fast_recursive Rnum (ract known f) fn s1 = (s2, Ok r) /\
+    fast_outputs Rnum fn s2 = map v (outputs n).
+Proof.
+  intros SV Hx. destruct fast_built as (fn & Efn & TR).
+  destruct (fast_load_base fn x TR SV Hx) as (s1 & E1 & B & LD & LI).
+  destruct (fast_recursive_from_base n known f dp v fn (idxf n) ffnet_of_feedforward SOL TR (proj1 SV)
+              (fw_single _ FW)) with (s := s1) as (s2 & r & E2 & O2); try assumption.
+  { intros o Ho. pose proof (net_ok_outputs n (fw_ok _ FW) o Ho) as Hlt. pose proof (dp_lt_N o Hlt). lia. }
+  exists fn, s1, s2, r. auto.
+Qed.
+
+(* Relax: [relax_sweeps] is the number of sweeps the call performs *)
+Theorem fast_relax_topo (x : list R) (ms : Z) (d : R) :
+  sensor_vals x v -> length x = length (positions_with n is_input) ->
+  exists fn s1 s2 r, fast_of_net Rnum n = Ok fn /\
+    fast_load Rnum fn x (fast_init Rnum fn) = (s1, Ok true) /\
+    fast_relax Rnum (ract known f) fn ms d s1 = (s2, Ok r) /\
+    (depth dp <= relax_sweeps known f fn (Z.to_nat ms) d s1 -> fast_outputs Rnum fn s2 = map v (outputs n)) /\
+    ((1 <= ms)%Z -> r = false -> relax_sweeps known f fn (Z.to_nat ms) d s1 = Z.to_nat ms) /\
+    ((1 <= ms)%Z -> (d <= 0)%R -> relax_sweeps known f fn (Z.to_nat ms) d s1 = 1).
+Proof.
+  intros SV Hx. destruct fast_built as (fn & Efn & TR).
+  destruct (fast_load_base fn x TR SV Hx) as (s1 & E1 & B & _ & _).
+  pose proof (relax_loop_FFin n known f dp v fn (idxf n) ffnet_of_feedforward SOL TR (proj1 SV)
+                (Z.to_nat ms) d 0 s1 false (FFin_zero n known dp v fn (idxf n) ffnet_of_feedforward s1 B))
+    as (s2 & r & E2 & HF & _ & H1 & H2).
+  exists fn, s1, s2, r. split; [exact Efn|]. split; [exact E1|]. split; [exact E2|]. split; [|split].
+  - intros Hd. apply (outputs_FFin n known dp v fn (idxf n) ffnet_of_feedforward TR _ _ HF).
+    intros o Ho. pose proof (depth_output o Ho). simpl. lia.
+  - intros Hms Hr. apply H1; [lia|exact Hr].
+  - intros Hms Hd. apply H2; [lia|]. simpl. destruct (Rle_dec d 0); [reflexivity|lra].
+Qed.
+
 End Main.
